@@ -311,8 +311,12 @@ def facts_control():
     er = parse("errors.py")
     ec = class_consts(find_class(er, "ErrorCode"))
     out.append(f"Definition server_too_many_code : N := {ec['CON_COUNT_ERROR']}.")
-    fin = [n for n in ast.walk(cb) if isinstance(n, ast.Try) and n.finalbody]
-    if len(fin) != 1 or [ast.unparse(x) for x in fin[0].finalbody] != ["writer.close()", "await self.control.remove(connection_id)"]:
+    allfin = [n for n in ast.walk(cb) if isinstance(n, ast.Try) and n.finalbody]
+    # (the refusal paths - no connection object, registry full, registration failed - close the socket after their ERR)
+    if any([ast.unparse(x) for x in n.finalbody] not in (["writer.close()"], ["writer.close()", "await self.control.remove(connection_id)"]) for n in allfin):
+        raise Shape("callback finally changed")
+    fin = [n for n in allfin if len(n.finalbody) == 2]
+    if len(fin) != 1:
         raise Shape("callback finally changed")
     if [ast.unparse(x) for x in fin[0].body] != ["return await connection.start()"]:
         raise Shape("callback try body changed")
